@@ -164,9 +164,19 @@ def fam_init_heavy(n, let, where):
     return mk("init-heavy" + ("-let" if let else ""), [cl], nums(0, range(1, n + 1)), where, False)
 
 
+def fam_multi_rule(k, n, where):
+    """k rules with one head predicate, each p1(X,Y,c) :- p0(X), p0(Y): the first round has
+    no delta-size check, so k * n^2 facts enter the store before the first total check
+    (the rule factor of limit_bound; Props/C17.v limit_bound_without_rule_factor_refuted)"""
+    cl = [dc.clause(dc.atom(1, X, Y, N(c)), [A(0, X), A(0, Y)]) for c in range(1, k + 1)]
+    return mk("multi-rule-product", cl, nums(0, range(1, n + 1)), where, False)
+
+
 def random_family(rng):
     where = rng.choice(["init", "init", "pre"])
-    k = rng.randrange(14)
+    k = rng.randrange(15)
+    if k == 13:
+        return fam_multi_rule(rng.randint(2, 4), rng.randint(1, 3), where)
     if k == 0:
         seeds = rng.sample(range(-5, 20), rng.randint(1, 3))
         return fam_counter(seeds, rng.randint(1, 3), rng.choice(["eq", "head", "let", "minus"]), where)
@@ -210,7 +220,7 @@ def exhaustive_programs():
             fam_closure(5, False, "right", "init"), fam_bounded(9, "init"), fam_bounded(20, "pre"),
             fam_two_strata(3, False, "init"), fam_two_strata(3, True, "init"), fam_two_strata(4, False, "pre"),
             fam_same_round("init"), fam_init_heavy(8, False, "init"), fam_init_heavy(8, True, "init"),
-            fam_init_heavy(8, True, "pre")]
+            fam_init_heavy(8, True, "pre"), fam_multi_rule(3, 2, "pre"), fam_multi_rule(4, 2, "init")]
 
 
 # ------------------------------------------------------------------ staying off known finding F8
@@ -569,7 +579,7 @@ def run(ck):
            "exhaustive": nexh > 0,
            "exhaustive_scope": ("every limit 1..30 x 4 store kinds x deterministic order on/off on %d fixed programs "
                                 "(all families: counters eq/head/let/minus, list, pair, products, fan-out, mutual, "
-                                "non-linear, closures, bounded counter, two strata, same-round join, init-heavy)" % nexh
+                                "non-linear, closures, bounded counter, two strata, same-round join, init-heavy, several rules per stratum)" % nexh
                                 if nexh else ""),
            "families": fams, "programs_with_infinite_model": divs,
            "finite_programs_run_around_their_size": around,
@@ -636,7 +646,7 @@ META = {
             "generators (arithmetic, list/pair growth, fan-out, non-linear, mutual, two strata), cartesian products and "
             "finite programs with limits just below/at/above the number of facts they create are evaluated under a "
             "wall-clock guard and compared with the model inside Coq on error/ok class and on the complete store at "
-            "return; thorough sweeps every limit 1..30 on 28 fixed programs, 4 store kinds, both rule-order modes. "
+            "return; thorough sweeps every limit 1..30 on 30 fixed programs, 4 store kinds, both rule-order modes. "
             "Verdicts are decided on Go's output: nil error with a store that is not the least model, no return within "
             "the guard, or a store above the proven bound.",
     "note": "Trusted: Coq kernel + vm_compute; the hand-written limit model is tied to the Go code only by differential "
